@@ -67,6 +67,9 @@ type Select struct {
 	Limit      *int        `json:"limit,omitempty"`
 	Offset     *int        `json:"offset,omitempty"`
 	LimitFirst bool        `json:"limit_first,omitempty"`
+	// AmbigOK: an alias in the select list shadows another selected column's
+	// name; the database may refuse the query as ambiguous instead of answering it
+	AmbigOK bool `json:"ambig_ok,omitempty"`
 }
 
 func (s *Style) ColRef(c ColRef) string {
